@@ -423,6 +423,10 @@ Varable failures: {var_failed}
         newlist = [vk for vk in newlist
                    if vk in outf.variables and len(vk) <= 16]
         setattr(outf, 'VAR-LIST', ''.join([vk.ljust(16) for vk in newlist]))
+        # a variable that could not be listed under its old name (longer
+        # than 16 characters) is listed under its new one
+        outf._add2Varlist([vk for vk in newkeys.values()
+                           if vk in outf.variables])
         outf.updatemeta()
         return outf
 
